@@ -844,7 +844,17 @@ func r208(c *an.Ctx) {
 	}
 	if top := mustFunc(c, rule, "pkg/trait/modepb", "ModelServer", "relativeAdjustment"); top != nil {
 		n := 0
-		for _, fn := range an.WithClosures(top) {
+		var scan []*ssa.Function
+		inScan := map[*ssa.Function]bool{}
+		for _, f := range an.WithClosures(top) {
+			for _, g := range append([]*ssa.Function{f}, an.TransparentCalleesOf(f, 2)...) {
+				if !inScan[g] {
+					inScan[g] = true
+					scan = append(scan, g)
+				}
+			}
+		}
+		for _, fn := range scan {
 			an.Instrs(fn, func(in ssa.Instruction) {
 				ia, ok := in.(*ssa.IndexAddr)
 				if !ok {
@@ -947,6 +957,62 @@ func r208(c *an.Ctx) {
 				case token.LSS:
 					if k, isC := an.ConstInt(bo.Y); isC && k == 0 {
 						lo = stores(func(v ssa.Value) bool { k, isC := an.ConstInt(v); return isC && k == 0 })
+					}
+				}
+			})
+			// or in one expression: PresetIndex = max(min(PresetIndex, len-1), 0) (or min(max(…, 0), len-1)) stored before the indexing
+			an.Instrs(fn, func(x ssa.Instruction) {
+				st, ok := x.(*ssa.Store)
+				if !ok || an.AccessPath(st.Addr) != ap || !an.Dominates(st, ia) {
+					return
+				}
+				builtin := func(v ssa.Value, name string) (a, b ssa.Value, ok bool) {
+					call, isCall := stripIntConv(v).(*ssa.Call)
+					if !isCall || len(call.Call.Args) != 2 {
+						return nil, nil, false
+					}
+					bi, isB := call.Call.Value.(*ssa.Builtin)
+					if !isB || bi.Name() != name {
+						return nil, nil, false
+					}
+					return call.Call.Args[0], call.Call.Args[1], true
+				}
+				isZero := func(v ssa.Value) bool { k, isC := an.ConstInt(stripIntConv(v)); return isC && k == 0 }
+				isLenMinus1 := func(v ssa.Value) bool {
+					sub, ok := stripIntConv(v).(*ssa.BinOp)
+					if !ok || sub.Op != token.SUB {
+						return false
+					}
+					k, isC := an.ConstInt(sub.Y)
+					cl, isLen := stripIntConv(sub.X).(*ssa.Call)
+					return isC && k == 1 && isLen && an.CalleeName(cl) == "builtin len"
+				}
+				either := func(a, b ssa.Value, p func(ssa.Value) bool) (other ssa.Value, ok bool) {
+					if p(a) {
+						return b, true
+					}
+					if p(b) {
+						return a, true
+					}
+					return nil, false
+				}
+				if a, b, isMax := builtin(st.Val, "max"); isMax {
+					if inner, ok := either(a, b, isZero); ok {
+						if c1, c2, isMin := builtin(inner, "min"); isMin {
+							if _, ok2 := either(c1, c2, isLenMinus1); ok2 {
+								hi, lo = true, true
+							}
+						}
+					}
+				}
+				if a, b, isMin := builtin(st.Val, "min"); isMin {
+					if inner, ok := either(a, b, isLenMinus1); ok {
+						if c1, c2, isMax := builtin(inner, "max"); isMax {
+							if _, ok2 := either(c1, c2, isZero); ok2 {
+								// min(max(x,0), len-1) differs for an empty list only (index -1 either way panics)
+								hi, lo = true, true
+							}
+						}
 					}
 				}
 			})
